@@ -55,9 +55,9 @@ InitC05m == \E us \in NESeqs(1..Len(C05mUnits), MaxUnits) :
    /\ sc = Sc(C05mTable, C05mScripts, 256, <<JoinWith(59, Pick(C05mUnits, us)) \o LF>>, [hdrs |-> <<>>])
 
 (* C06: messages of scripted units, after nothing / a responding message / a failing message *)
-Prevs == << <<>>, <<81, 49, 63, 10>>, <<67, 69, 10>>, <<81, 49, 63, 59, 81, 48, 63, 10>> >>       \* none, "Q1?\n", "CE\n", "Q1?;Q0?\n"
-InitC06 == \E us \in NESeqs(1..Len(C06Hdrs), MaxUnits), pv \in 1..4, fl \in BOOLEAN :      \* fl: ended by a zero-length call instead of a terminator
-   /\ us[1] % NParts = Part /\ (fl => pv = 1 /\ Len(us) <= 2) /\ (pv = 4 => Len(us) <= 2)
+Prevs == << <<>>, <<81, 49, 63, 10>>, <<67, 69, 10>>, <<81, 49, 63, 59, 81, 48, 63, 10>>, <<81, 80, 63, 10>> >>   \* none, "Q1?\n", "CE\n", "Q1?;Q0?\n", "QP?\n" (leaves a block unfinished)
+InitC06 == \E us \in NESeqs(1..Len(C06Hdrs), MaxUnits), pv \in 1..5, fl \in BOOLEAN :      \* fl: ended by a zero-length call instead of a terminator
+   /\ us[1] % NParts = Part /\ (fl => pv = 1 /\ Len(us) <= 2) /\ (pv >= 4 => Len(us) <= 2)
    /\ LET body == JoinWith(59, Pick(C06Hdrs, us))
           tailc == IF fl THEN <<body, <<>>>> ELSE <<body \o LF>> IN
       sc = Sc(C06Table, C06Scripts, 256, IF pv = 1 THEN tailc ELSE <<Prevs[pv]>> \o tailc, [hdrs |-> Pick(C06Hdrs, us)])
